@@ -47,6 +47,32 @@ def odd_names(w=3):
     o5 <<= u1 ^ u2
 
 
+@__import__('fam.designs', fromlist=['design']).design
+def extended_after_export(base='counter', params=None):
+    """a design that was already exported once (module, testbench, FIRRTL-free) and then extended in the same
+    block: an export must describe the block as it is NOW (no state kept from an earlier export)"""
+    import pyrtl
+    from fam import designs
+    designs.DESIGNS[base](**(params or {}))
+    block = pyrtl.working_block()
+    for ar in (True, False):
+        pyrtl.output_to_verilog(io.StringIO(), add_reset=ar, block=block)
+    ins = sorted(block.wirevector_subset(pyrtl.Input), key=lambda w: w.name)
+    sim = pyrtl.Simulation(tracer=pyrtl.SimulationTrace(block=block), block=block)
+    sim.step({w.name: 0 for w in ins})
+    pyrtl.output_verilog_testbench(io.StringIO(), simulation_trace=sim.tracer, block=block)
+    # the extension: a new input, register, memory and two outputs
+    hx = pyrtl.Input(2, 'hx')
+    hr = pyrtl.Register(2, 'hr', reset_value=1)
+    hr.next <<= hx ^ hr
+    hm = pyrtl.MemBlock(2, 1, 'hm', asynchronous=True)
+    hm[hx[0]] <<= pyrtl.MemBlock.EnabledWrite(hr, hx[1])
+    hy = pyrtl.Output(2, 'hy')
+    hy <<= hr + hx if not ins else (hr ^ hx ^ ins[0][:1].zero_extended(2))
+    hz = pyrtl.Output(2, 'hz')
+    hz <<= hm[hx[1]]
+
+
 def module_replay(design, add_reset, inputs, regs, mems):
     """Replayer: the exported module, interpreted with spec/vsem (Python ints), against the real
     Simulation for one cycle + next state."""
